@@ -23,7 +23,7 @@ import os
 from vlib import Case, Stream, BUILD, model_cmd
 
 ID = "C08S"
-LEAN_MODULES = ["HgVerif.Props.C08Shape", "HgVerif.Props.C08Init"]
+LEAN_MODULES = ["HgVerif.Props.C08Shape", "HgVerif.Props.C08Init", "HgVerif.Props.C08Ref"]
 THEOREMS = [
     "HgVerif.FeedbackShape.shape_feedback_delay",
     "HgVerif.FeedbackShape.shape_initial_value",
@@ -50,6 +50,22 @@ THEOREMS = [
     "HgVerif.FeedbackShape.gated_loop_without_valid_prev_silent",
     "HgVerif.FeedbackShape.s94_reader_not_validated",
     "HgVerif.FeedbackShape.s94_loop_never_starts",
+    # producer port = REF-selected collection (Model/FeedbackRef.lean, Props/C08Ref.lean)
+    "HgVerif.FeedbackRef.reader_delta_eq_port_delta_shifted",
+    "HgVerif.FeedbackRef.reader_tick_is_port_tick",
+    "HgVerif.FeedbackRef.reader_value_eq_selected_value_shifted",
+    "HgVerif.FeedbackRef.reader_value_is_fold",
+    "HgVerif.FeedbackRef.first_cycle_silent",
+    "HgVerif.FeedbackRef.step_inv",
+    "HgVerif.FeedbackRef.diff_replay",
+    "HgVerif.FeedbackRef.applyCore_replay",
+    "HgVerif.FeedbackRef.difference_faithful",
+    "HgVerif.FeedbackRef.asBuilt_faithful",
+    "HgVerif.FeedbackRef.ref_feedback_exact_difference",
+    "HgVerif.FeedbackRef.ref_feedback_exact_asBuilt",
+    "HgVerif.FeedbackRef.current_value_capture_keeps_stale",
+    "HgVerif.FeedbackRef.copy_path_loses_difference",
+    "HgVerif.FeedbackRef.bundle_copy_loses_flip",
 ]
 CXX_TARGETS = ["hgv_fbshape"]
 RULE = ("fbshape streams: one feedback edge of shape TS<Int> | TSB{a,b} | TSB{a,b,c} | TSB{a,n:TSB{x,y}} | TSL<TS<Int>,2> | "
@@ -68,12 +84,30 @@ RULE = ("fbshape streams: one feedback edge of shape TS<Int> | TSB{a,b} | TSB{a,
         "{x%3: x}), x scripted; `late` spacing leaves the start cycle to the initial delta alone; first producer write = the "
         "EMPTY delta (remove / erase of an absent element); a directed block runs every shape x initial kind x probe x "
         "{late first write, write in the start cycle, loop}. A case is non-trivial when the reader "
-        "ticked in >=2 cycles; distinct by case text")
-TRUSTED = ["the recorders read modified()/valid()/value() per position (TSS added()/removed(), TSD modified_items()/"
+        "ticked in >=2 cycles; distinct by case text. "
+        "Stream fbshape-ref: the feedback's producer port is a REF-SELECTED output - stdlib::if_then_else(cond, A, B) (`sel`: TSS / TSD / "
+        "TSL<TS<Int>,2> / TSB{a,b}) or stdlib::switch_(key, {pass-A, pass-B}, A, B) (`swc`: TSS / TSD, both arguments valid, effective "
+        "writes only) over two independently scripted writers A, B and a scripted condition, 4-13 consecutive smallest steps; per cycle any "
+        "combination of {write A, write B, tick cond}: B starts as a superset / subset / disjoint / overlapping / equal / random relative of "
+        "A; flips while the new target is silent (60% `clean` profile), while it ticks (`coincide`), while the old one ticks, flip back, "
+        "flips in consecutive cycles, cond re-ticking with its value, selection before anything is valid, first selection with one valid "
+        "target, flip onto a not-valid target (port loses its value: value clause off, deltas still compared); recorders on the producer "
+        "PORT (added()/removed()/modified_items()/modified() per child and the value - never delta_value(), finding C13-A) and on the "
+        "reader; a directed block runs every shape x mode x {superset, subset, disjoint, overlap, equal} x {flip + flip back, consecutive "
+        "flips, old target ticks in the flip cycle, new target ticks in the flip cycle} and the three start orders; thorough adds every "
+        "4-cycle history over {idle, flip, write A, write B, flip+write A, flip+write B} for TSS and TSD")
+TRUSTED = ["fbshape-ref: which sink rule the model driver uses (`asbuilt`: in-place copy of delta_value() when it has a value, else "
+           "capture_delta; `difference`: always the link-aware tick) is read from the source under test (the helper "
+           "observed_delta_is_link_aware of fix fixes/c08_ref_feedback.patch present or not); the monitor does not depend on it",
+           "the recorders read modified()/valid()/value() per position (TSS added()/removed(), TSD modified_items()/"
            "removed_keys()) of the feedback port; values are Int; capture/apply of deltas in depth is C20's subject",
            "the producer model (Out<S> mutations always tick; TSS/TSD deltas list only effective changes) is part of the "
            "correspondence, not of the theorems, which quantify over arbitrary producer deltas"]
-ASSUMPTIONS = ["one producer write set per position and cycle; no same-cycle set+erase of one TSD key (C05 covers those)",
+ASSUMPTIONS = ["REF-selected producer (fbshape-ref): what the port 'writes' in a cycle is what its consumers see through the keyed "
+               "accessors (property C13: own delta of the bound target, old-vs-new difference in a flip cycle); exactness of the reader's "
+               "VALUE needs what a delta can express: flips select valid targets, and for TSB / TSL the new target has every child valid "
+               "that the old one had (hypotheses selValid / covers of Props/C08Ref.lean)",
+               "one producer write set per position and cycle; no same-cycle set+erase of one TSD key (C05 covers those)",
                "gated loop: the body is a compute node with the default validity gate (all inputs valid) and the feedback "
                "input passive (node readiness is C03's subject); its arithmetic is part of the harness and of `bodyOps`",
                "the source ranks before its readers and the sink after the producer (C01); the sink's request for t+1 is "
